@@ -3,6 +3,7 @@ import json, itertools
 from common import prove, ensure_model_runner, run_impl, run_model, Err
 from flow import conclude
 import gen_structs as gs
+import gen_pil
 
 
 def complexes(rng, n):
@@ -10,7 +11,7 @@ def complexes(rng, n):
     while len(out) < n:
         s = gs.random_wf(rng, rng.randrange(1, 6), p_break=0.2)
         sq = gs.seq_for(rng, s, names=("a", "b"))
-        key = (tuple(sq), s)
+        key = gen_pil.canon(sq, list(s))          # distinct up to strand rotation
         if key in seen:
             continue
         seen.add(key)
